@@ -20,13 +20,131 @@ def cost(before, after, rule):
     return change * max(size, 1)
 
 
-def run(rep, tier, seed):
-    cs, dist = C02.corpus(seed, tier)
-    h, m, diffs = C02.run_traces(cs)
-    budget = 3_000_000 if tier == 'quick' else 200_000_000       # estimated base-step cost per application
-    fuel = 200_000 if tier == 'quick' else 5_000_000             # cycles of the verified replay
-    apps = []
-    unreplayed = 0
+def fmt_tape(sc, l, r):
+    return f"{sc}/{','.join(f'{c}:{n}' for c, n in l)}/{','.join(f'{c}:{n}' for c, n in r)}"
+
+
+def parse_rule(rule):
+    """'L0:-3,R0:+5' -> [('L', 0, -3), ('R', 0, 5)] (only additive rules are ever applied by run_prover)"""
+    out = []
+    for part in rule.split(','):
+        k, d = part.split(':')
+        out.append((k[0], int(k[1:]), int(d)))
+    return out
+
+
+def tape_at(before, rule, k):
+    """the tape after k applications of the additive rule (k may be -1); None if a count would be < 1"""
+    sc, l, r = parse_tape(before)
+    l, r = [list(b) for b in l], [list(b) for b in r]
+    for side, i, d in parse_rule(rule):
+        span = l if side == 'L' else r
+        if i >= len(span):
+            return None
+        span[i][1] += k * d
+        if span[i][1] < 1:
+            return None
+    return fmt_tape(sc, l, r)
+
+
+def boundary_checks(allapps, tier):
+    """Single-application replays at the END of every application (whatever its size): the applications number
+    times-3, times-2, times-1 (0-based) are replayed one at a time by the verified checker; an application is
+    flagged when its predecessor in this chain is a real run of c cycles and it is itself not reached within
+    20c + 20000 cycles (or the machine stops first).  This is where the rule's guard `count > |diff|` is tightest
+    (finding F14).  -> (flags, stats)"""
+    fref = 100_000 if tier == 'quick' else 3_000_000
+    chains = {}
+    for app in allapps:
+        aid, p, st, before, rule, times, after = app
+        times = int(times)
+        try:
+            ks = list(range(max(0, times - 3), times)) if times >= 2 else [-1, 0]
+            tapes = {k: tape_at(before, rule, k) for k in ks + [ks[-1] + 1]}
+        except (ValueError, IndexError):
+            continue
+        if tapes[ks[-1] + 1] != after:          # not an additive application of this rule: part (a)/(b) deal with it
+            continue
+        ks = [k for k in ks if tapes[k] is not None]
+        if len(ks) >= 2:
+            chains[aid] = (app, ks, tapes)
+    state = {aid: (0, fref) for aid in chains}          # position in the chain, fuel
+    cyc = {}
+    flags = []
+    stats = {'boundary_chains': len(chains), 'boundary_applications_replayed': 0, 'boundary_reference_not_reached': 0,
+             'boundary_flagged': 0}
+    for rnd in range(3):
+        lines = []
+        for aid, (pos, fuel) in state.items():
+            app, ks, tapes = chains[aid]
+            if pos < len(ks):
+                k = ks[pos]
+                lines.append(f'{aid}|replay|{app[1]}|{app[2]}|{tapes[k]}|{app[2]}|{tapes[k + 1]}|{fuel}')
+        if not lines:
+            break
+        o = core.run_bbm(lines)
+        for aid in list(state):
+            pos, fuel = state[aid]
+            app, ks, tapes = chains[aid]
+            if pos >= len(ks):
+                continue
+            a = o.get(aid, '')
+            k = ks[pos]
+            if a.startswith('reached'):
+                c = int(a.split(':')[1])
+                cyc[(aid, k)] = c
+                stats['boundary_applications_replayed'] += 1
+                state[aid] = (pos + 1, 20 * c + 20000)
+            elif pos == 0:
+                stats['boundary_reference_not_reached'] += 1
+                state[aid] = (len(ks), 0)
+            else:
+                cprev = cyc[(aid, ks[pos - 1])]
+                what = (f'the real machine halts or spins out after {a.split(":")[1]} cycles' if a.startswith('stopped')
+                        else f'not reached within {fuel} cycles')
+                flags.append((aid, app, k, tapes[k], tapes[k + 1], cprev, what, a.startswith('stopped')))
+                stats['boundary_flagged'] += 1
+                state[aid] = (len(ks), 0)
+    return flags, stats
+
+
+def tape_sig(field):
+    sc, l, r = field.split('/')
+    sp = lambda x: tuple((b.split(':')[0], b.split(':')[1] == '1') for b in x.split(',')) if x else ()
+    return (sc, sp(l), sp(r))
+
+
+def certify(allapps, tier):
+    """The Coq-verified symbolic rule checker (Model/SymRule.v, theorem C03_cover_sig_apply_sound): one certificate per
+    distinct (program, state, signature of the tape, rule); `complete` = every application of this rule by apply_rule on
+    every canonical tape with this signature is a run of the real machine (for ALL counts, whatever the size).
+    -> ({aid: 'complete' | 'above' | 'nocert:<why>'}, stats)"""
+    cycles = 500 if tier == 'quick' else 2000
+    keys = {}
+    for app in allapps:
+        aid, p, st, before, rule, times, after = app
+        keys.setdefault((p, st, tape_sig(before), rule), app)
+    kl = list(keys)
+    o = core.run_bbm([f'c{i}|symcert|{k[0]}|{k[1]}|{keys[k][3]}|{k[3]}|{cycles}' for i, k in enumerate(kl)])
+    cls = {}
+    for i, k in enumerate(kl):
+        f = o.get(f'c{i}', 'nocert|missing').split('|')
+        cls[k] = f[-1] if f[0] == 'cert' else f'nocert:{f[1]}'
+    out = {}
+    stats = {'rules_distinct': len(kl), 'rules_certified_all_counts': sum(1 for v in cls.values() if v == 'complete'),
+             'rules_certified_above_threshold_only': sum(1 for v in cls.values() if v == 'above'),
+             'rules_not_certified': {}}
+    for v in cls.values():
+        if v.startswith('nocert'):
+            stats['rules_not_certified'][v[7:]] = stats['rules_not_certified'].get(v[7:], 0) + 1
+    for app in allapps:
+        out[app[0]] = cls[(app[1], app[2], tape_sig(app[3]), app[4])]
+    return out, stats
+
+
+def collect_apps(cs, h, budget):
+    """distinct applications of the traces: (replayable within the budget, all)"""
+    apps, allapps = [], []
     seen = set()
     for cid, p, lim in cs:
         r = C02.parse_answer(h.get(cid, ''))
@@ -41,13 +159,29 @@ def run(rep, tier, seed):
             if key in seen:
                 continue
             seen.add(key)
-            if cost(before, after, rule) > budget:
-                unreplayed += 1
-                continue
-            apps.append((f'{cid}.{j}', p, st, before, rule, times, after))
+            app = (f'{cid}.{j}', p, st, before, rule, times, after)
+            allapps.append(app)
+            if cost(before, after, rule) <= budget:
+                apps.append(app)
+    return apps, allapps
+
+
+def f14_text(flag):
+    aid, app, k, tk, tk1, cprev, what, decisive = flag
+    return (f'F14 class: "{app[1]}" state {app[2]}: application {app[3]} --{app[4]} x{app[5]}--> {app[6]}: its application no. {k + 1} '
+            f'({tk} -> {tk1}) is {what}, while the application before it is a real run of {cprev} cycles')
+
+
+def run(rep, tier, seed):
+    cs, dist = C02.corpus(seed, tier)
+    h, m, diffs = C02.run_traces(cs)
+    budget = 3_000_000 if tier == 'quick' else 200_000_000       # estimated base-step cost per application
+    fuel = 200_000 if tier == 'quick' else 5_000_000             # cycles of the verified replay
+    apps, allapps = collect_apps(cs, h, budget)
+    unreplayed = len(allapps) - len(apps)
     fails = []
     # (a) no block driven to zero or below; shape preserved
-    for aid, p, st, before, rule, times, after in apps:
+    for aid, p, st, before, rule, times, after in allapps:
         sb, bl, br = parse_tape(before)
         sa, al, ar = parse_tape(after)
         if any(n < 1 for _, n in al + ar):
@@ -67,6 +201,37 @@ def run(rep, tier, seed):
                                   f'halts or spins out after {a.split(":")[1]} cycles (verified replay)'))
         else:
             nofuel += 1
+    # (c) the last applications of EVERY application (also those over the budget), one at a time
+    flags, bstats = boundary_checks(allapps, tier)
+    diverging = {d[0] for d in diffs}
+    nf14 = 0
+    for fl in flags:
+        aid, app = fl[0], fl[1]
+        if aid.split('.')[0] in diverging:      # the code does not do what the pinned code (= the model) does here
+            fails.append((aid, app[1], f14_text(fl).replace('F14 class: ', '')))
+        else:
+            nf14 += 1
+            if nf14 <= 4:
+                rep.known_finding(f14_text(fl))
+    if nf14:
+        kf = [f for f in core.known_findings()['open'] if f['id'] == 'F14'][0]
+        rep.known_finding(f'F14 class ({kf["site"]}): {nf14} rule applications in this run whose final application is not a run of '
+                          f'the real machine although the one before it is; the faithful model applies them identically')
+    rep.coverage.update(bstats)
+    rep.coverage['boundary_known_F14'] = nf14
+    # (d) the verified symbolic checker: applications proved real for all counts
+    cert, cstats = certify(allapps, tier)
+    flagged = {fl[0] for fl in flags}
+    proved = sum(1 for a in allapps if cert[a[0]] == 'complete')
+    replayed_ok = {aid for aid, *_ in apps if o.get(aid, '').startswith('reached')}
+    decided = sum(1 for a in allapps if cert[a[0]] == 'complete' or a[0] in replayed_ok or a[0] in flagged)
+    for a in allapps:                       # a certificate and a refuting replay cannot both be right
+        if cert[a[0]] == 'complete' and (a[0] in flagged or o.get(a[0], '').startswith('stopped')):
+            fails.append((a[0], a[1], f'state {a[2]}: {a[3]} --{a[4]} x{a[5]}--> {a[6]}: certified by the symbolic checker for this '
+                                      f'signature but the concrete replay does not reach it (the recorded application is not apply_rule)'))
+    rep.coverage.update(cstats)
+    rep.coverage.update({'applications_proved_real_by_certificate': proved, 'applications_decided': decided,
+                         'applications_undecided': len(allapps) - decided})
     rep.coverage.update({
         'evaluations': len(apps) + unreplayed,
         'distinct_nontrivial': reached,
@@ -74,7 +239,11 @@ def run(rep, tier, seed):
                 'C02 corpus runs; each one whose estimated cost fits the budget is re-validated by the Coq-verified replay checker '
                 '(ReplayModel.replay3, soundness ReplaySound.replay_sound): the compressed simulator proved correct in C01 runs from '
                 'the configuration before until it meets the configuration after, with no halt and no spin-out on the way; also no block '
-                'count < 1 and colours unchanged; non-trivial = applications confirmed as real runs',
+                'count < 1 and colours unchanged; every distinct (program, state, tape signature, rule) is submitted to the Coq-verified symbolic rule '
+                'checker (C03_cover_sig_apply_sound: a certificate proves all applications of the rule on tapes of that signature real, for all '
+                'counts, so also those over the replay budget); in addition the LAST three single applications of every application, whatever its size, are '
+                'replayed one at a time (the rule guard count > |diff| is tightest there: finding F14); non-trivial = applications '
+                'confirmed as real runs',
         'input_distribution': dist, 'applications_distinct': len(apps) + unreplayed, 'replayed_reached': reached,
         'replay_stopped': stopped, 'replay_out_of_fuel': nofuel, 'unreplayed_over_budget': unreplayed,
         'divergences': len(diffs),
